@@ -219,4 +219,22 @@ example : vzero ∈ totalS (elimAllS (fun _ => 1) [0, 1]
   · intro u hu; simp at hu; simp [zeroAsg, hu.1]
   · funext i; simp [payoffV, VRule.eval, matchKV, vadd, vzero]
 
+/-! ### UCVE, repaired design (fixes/C13-1): eliminate without dropping, cross-sum everything, then maximise
+
+`UCVE` is the same elimination on 2-vectors (mean, count) followed by the choice of an entry maximising
+`val (m,n) = m + sqrt(n·logtA/2)`.  For ANY objective `val` into a linear order: an entry that is maximal among the
+vectors left after the eliminations is maximal among the value vectors of ALL in-range joint actions — provided nothing
+was dropped on the way (this is what the unrepaired per-component `makeResult` and the dropped unmatched actions
+violate; pruning dominated entries is a separate, monotonicity-based optimisation that is only tested). -/
+
+theorem ucve_repaired_sem {α : Type} [LinearOrder α] (val : Vec → α)
+    (dom : Nat → Nat) (order : List Nat) (rules : List VRule) (x : Asg) (best : Vec)
+    (hbest : best ∈ totalS (elimAllS dom order (rules.map ofVRule)) x)
+    (hmax : ∀ w ∈ totalS (elimAllS dom order (rules.map ofVRule)) x, val w ≤ val best) :
+    (∃ y : Asg, (∀ u ∈ order, y u ≤ dom u) ∧ (∀ u, u ∉ order → y u = x u) ∧ best = payoffV rules y) ∧
+    ∀ y : Asg, (∀ u ∈ order, y u ≤ dom u) → (∀ u, u ∉ order → y u = x u) → val (payoffV rules y) ≤ val best := by
+  refine ⟨(move_correct_sem dom order rules x best).mp hbest, ?_⟩
+  intro y h1 h2
+  exact hmax _ ((move_correct_sem dom order rules x _).mpr ⟨y, h1, h2, rfl⟩)
+
 end AITB.VE
